@@ -19,7 +19,7 @@ RULE = (
     "also be split in two blocks with the same header), order of the entries inside every declaration block, "
     "order of the assignment lines inside every expressions block (use-before-definition arises naturally). "
     "Oracle: ode_p == ode_0 (ODE.__eq__), identical sorted_states / sorted_assignments, byte-identical "
-    "Python (all schemes) and C output, all within one process. Non-trivial = a permutation that is not the "
+    "Python (Euler + GRL) and C output with remove_unused drawn on / off, all within one process. Non-trivial = a permutation that is not the "
     "identity and moves a use before its definition or reorders two assignments that are ready at the same "
     "time; distinct by sha1 of the case."
 )
@@ -67,7 +67,7 @@ def strategy(tier):
     def _s(draw):
         model = strip_comments(G.gen_model(draw, c))
         variants = [permuted_blocks(draw, model) for _ in range(3)]
-        return {"model": model, "variants": variants}
+        return {"model": model, "variants": variants, "remove_unused": draw(st.booleans())}
 
     return _s()
 
@@ -96,10 +96,10 @@ def moved_use_before_def(blocks) -> bool:
     return False
 
 
-def outputs(text):
+def outputs(text, ru=False):
     ode = B.load(text)
-    py = B.py_code(ode, schemes=["explicit_euler", "generalized_rush_larsen"])
-    c = B.c_code(ode, schemes=["explicit_euler"])
+    py = B.py_code(ode, schemes=["explicit_euler", "generalized_rush_larsen"], remove_unused=ru)
+    c = B.c_code(ode, schemes=["explicit_euler"], remove_unused=ru)
     return ode, py, c
 
 
@@ -107,12 +107,13 @@ def check_case(case):
     model = case["model"]
     t0 = X.render_model(model)
     try:
-        ode0, py0, c0 = outputs(t0)
+        ru = bool(case.get("remove_unused"))
+        ode0, py0, c0 = outputs(t0, ru)
     except Exception as ex:
         # Rush-Larsen generation failures etc. are other properties' business
         try:
             ode0 = B.load(t0)
-            py0, c0 = B.py_code(ode0, schemes=["explicit_euler"]), B.c_code(ode0, schemes=["explicit_euler"])
+            py0, c0 = B.py_code(ode0, schemes=["explicit_euler"], remove_unused=ru), B.c_code(ode0, schemes=["explicit_euler"], remove_unused=ru)
             schemes_ok = False
         except Exception as ex2:
             raise Inconclusive(f"base-rejected:{type(ex2).__name__}")
@@ -136,10 +137,10 @@ def check_case(case):
             raise Violation("C10:sorted-assignments-differ", dict(ctx, a=[a.name for a in ode0.sorted_assignments()], b=[a.name for a in odep.sorted_assignments()]))
         try:
             if schemes_ok:
-                pyp = B.py_code(odep, schemes=["explicit_euler", "generalized_rush_larsen"])
+                pyp = B.py_code(odep, schemes=["explicit_euler", "generalized_rush_larsen"], remove_unused=ru)
             else:
-                pyp = B.py_code(odep, schemes=["explicit_euler"])
-            cp = B.c_code(odep, schemes=["explicit_euler"])
+                pyp = B.py_code(odep, schemes=["explicit_euler"], remove_unused=ru)
+            cp = B.c_code(odep, schemes=["explicit_euler"], remove_unused=ru)
         except Exception as ex:
             raise Violation(f"C10:permutation-codegen:{type(ex).__name__}", dict(ctx, error=str(ex)[:500]))
         if pyp != py0:
